@@ -128,6 +128,8 @@ pub struct Shadow {
     pub totals_drifted: bool,
     /// model version currently declared (true = indexing enabled)
     pub declared_on: bool,
+    /// rows referenced by at least one holder row (written as a sub entity at least once)
+    pub held: BTreeSet<Uid>,
 }
 
 pub struct SearchQ {
@@ -334,6 +336,9 @@ impl World {
                     q.mutate_entities[0].node_to_mutate.id
                 };
                 let (rowid, cdate) = self.rowid_of(&id)?;
+                if nested {
+                    self.sh.held.insert(id);
+                }
                 self.sh.rows.push(MRow {
                     id,
                     rowid,
@@ -361,6 +366,9 @@ impl World {
                     format!("mutate {{ ns.P {{ id:$id {} }} }}", fields)
                 };
                 self.lp.mutate(&text, p)?;
+                if matches!(ev, Ev::SetANested { .. }) {
+                    self.sh.held.insert(id);
+                }
                 let r = &mut self.sh.rows[*row];
                 match ev {
                     Ev::SetA { v, .. } | Ev::SetANested { v, .. } => r.a = *v,
@@ -750,8 +758,48 @@ pub fn evaluate(w: &World, sq: &SearchQ, stored: &[(i64, Uid, Vec<String>)]) -> 
             });
         }
         v.per_probe.push((expected.len(), got.len(), missed, stale));
+        // the same search written on the reference of the holder rows: exactly the held rows whose text matches
+        if !w.sh.held.is_empty() && missed == 0 && stale == 0 {
+            // (only where the plain search is right: otherwise the index itself is off, which is reported above)
+            let want: BTreeSet<String> = expected.iter().filter(|id| w.sh.held.iter().any(|h| &uid_encode(h) == *id)).cloned().collect();
+            match nested_search(&w.lp, probe) {
+                Ok(found) => {
+                    if found != want {
+                        let missing = want.difference(&found).count();
+                        let extra = found.difference(&want).count();
+                        problems.push(Problem {
+                            key: format!("nested search | {}", if missing > 0 { "missed match" } else { "stale match" }),
+                            what: format!("holder {{ kids(search(\"{}\")) }} returns {} held rows, {} matching ones are missing and {} do not match", probe, found.len(), missing, extra),
+                        });
+                    }
+                }
+                Err(e) => problems.push(Problem { key: format!("engine error | nested search | {}", short_err(&e)), what: format!("nested search(\"{}\") failed: {}", probe, e) }),
+            }
+        }
     }
     Ok((v, problems))
+}
+
+/// ids of the rows returned by `search` written on the reference field of the holder rows
+fn nested_search(lp: &LPeer, text: &str) -> Result<BTreeSet<String>, String> {
+    let parser = QueryParser::parse("query { ns.H { kids(search($s)) { id } } }", &lp.model).map_err(|e| e.to_string())?;
+    let prepared = PreparedQueries::build(&parser).map_err(|e| e.to_string())?;
+    let mut p = Parameters::default();
+    p.add("s", text.to_string()).map_err(|e| e.to_string())?;
+    let mut q = Query { parameters: p, parser: Arc::new(parser), sql_queries: Arc::new(prepared) };
+    let res = q.read(&lp.conn).map_err(|e| e.to_string())?;
+    let v: Value = serde_json::from_str(&res).map_err(|e| format!("result json: {}", e))?;
+    let mut ids = BTreeSet::new();
+    for h in v.get("ns.H").and_then(|a| a.as_array()).ok_or_else(|| format!("unexpected result {}", res))? {
+        if let Some(kids) = h.get("kids").and_then(|k| k.as_array()) {
+            for k in kids {
+                if let Some(id) = k.get("id").and_then(|i| i.as_str()) {
+                    ids.insert(id.to_string());
+                }
+            }
+        }
+    }
+    Ok(ids)
 }
 
 /// the harness record and the stored rows must describe the same rows (otherwise the harness is broken)
